@@ -311,6 +311,13 @@ class Elemwise(Blockwise):
 
         return op, dtype, blockwise_kwargs
 
+    def _lower(self):
+        # self.args interleaves operands and index tuples for Blockwise; an
+        # Elemwise expression is built from the operands alone
+        _, arrays, changed = unify_chunks_expr(*self.args)
+        if changed:
+            return type(self)(*self.operands[: len(self._parameters)], *arrays)
+
     @property
     def func(self):
         return self._info[0]
